@@ -352,6 +352,14 @@ func c20TableWrites() string {
 						why = fd.Name.Name + ":writes-" + ix.X.(*ast.SelectorExpr).Sel.Name
 					}
 				case *ast.CallExpr:
+					// the encoder's zero-never-ends memo is written only by zeroNeverEnds itself (the final answer):
+					// a helper that stores into it publishes intermediate state
+					if sel, ok := x.Fun.(*ast.SelectorExpr); ok && fd.Name.Name != "zeroNeverEnds" {
+						if id, ok := sel.X.(*ast.Ident); ok && id.Name == "zeroNeverEndsMemo" &&
+							(sel.Sel.Name == "Store" || sel.Sel.Name == "LoadOrStore" || sel.Sel.Name == "Swap" || sel.Sel.Name == "CompareAndSwap") {
+							why = fd.Name.Name + ":writes-zeroNeverEndsMemo"
+						}
+					}
 					if id, ok := x.Fun.(*ast.Ident); ok && id.Name == "delete" && len(x.Args) > 0 && isTableField(x.Args[0]) {
 						why = fd.Name.Name + ":deletes-from-" + x.Args[0].(*ast.SelectorExpr).Sel.Name
 					}
